@@ -13,6 +13,7 @@ F_TRUNC = "C05-replay-skipped-after-truncation"
 F_PID = "C05-proposeid-reuse"
 F_ACKERR = "C05-ack-despite-apply-error"
 F_FORCED = "C05-forced-truncation-strands-member"
+F_STALE = "C05-stale-tolerance-timer-after-leadership-loss"
 
 
 # ------------------------------------------------------------------ rendering harness cases as Coq terms
@@ -94,6 +95,15 @@ def case_coq(c):
     if k == "coord":
         m = {"ok": "WOk", "retry-pt": "WRetry", "retry-conn": "WRetry", "fail": "WFail", "shardmeta": "WFail"}
         return "CCoord [%s] %s %d" % ("; ".join(m[x] for x in c["script"]), "true" if c["acked"] else "false", c["calls"])
+    if k == "trunc":
+        bl = lambda xs: "[" + "; ".join("true" if x else "false" for x in xs) + "]"
+        nl = lambda xs: "[" + "; ".join(Nn(x) for x in xs) + "]"
+        rs = ["(%s, %s, %s, %s, %s, %s, %s)" % (vlib.coq_z(r["adv"]), "true" if r["lead"] else "false", bl(r["alive"]), nl(r["match"]),
+                                                 Nn(r["snap"]), "None" if r["prop"] < 0 else "(Some %s)" % Nn(r["prop"]),
+                                                 "true" if r["armed"] else "false") for r in c["rounds"]]
+        return "CTrunc %s %s %s %s [%s]" % (Nn(c["fileSize"]), Nn(c["first"]), Nn(c["last"]), vlib.coq_z(c["t"]), "; ".join(rs))
+    if k == "group" and c["forced"] in ("second", "stale"):
+        return "CGroupT %s %s" % ("true" if c["forced"] == "stale" else "false", "true" if c["missing"] > 0 else "false")
     if k == "group":
         return "CGroup %s %s" % ("true" if c["forced"] in ("time", "size") else "false", "true" if c["missing"] > 0 else "false")
     if k == "conflict":
@@ -113,6 +123,35 @@ def forced_signature(c):
     """finding C05-forced-truncation-strands-member: the tolerate-time or the size branch truncated the leader's entry
     log past the last index of a member that was down, and the member rejoined (raft snapshot without shard data)"""
     return c["kind"] == "group" and c["forced"] in ("time", "size") and c["firstLeader"] > c["victimLast"] + 1
+
+
+def stale_signature(c):
+    """finding C05-stale-tolerance-timer-after-leadership-loss: the forced branch fires although the group was seen
+    healthy less than the tolerate time before, and between the round that started the tolerance period (this node as
+    the leader saw a member down) and the round that fires, every round in which all members were alive was a round
+    in which this node was NOT the leader (today's rule leaves the timer alone in such a round). A healthy round seen
+    as the leader inside that window puts the case outside the signature."""
+    if c["kind"] == "group":
+        return c["forced"] == "stale" and c["firstLeader"] > c["victimLast"] + 1
+    if c["kind"] != "trunc" or not c.get("bad"):
+        return False
+    rounds, T = c["rounds"], c["t"]
+    clock, armed, fires = 0, None, set()
+    for i, r in enumerate(rounds):
+        clock += r["adv"]
+        if not r["lead"] or r["snap"] == 0:
+            continue
+        if all(r["alive"]):
+            armed = None
+            continue
+        if armed is None:
+            armed = (clock, i)
+        if clock - armed[0] > T:
+            healthy = [j for j in range(armed[1] + 1, i) if all(rounds[j]["alive"])]
+            if healthy and all(not rounds[j]["lead"] for j in healthy):
+                fires.add(i)
+            armed = None
+    return all(b in fires for b in c["bad"])
 
 
 def open_finding(ck, fid):
@@ -187,7 +226,7 @@ def main(ck):
     else:
         # the real 3-node group scenarios run as separate processes next to the case stream, the cluster in a thread
         gprocs = [subprocess.Popen([binp, "group", "30100", f], stdout=subprocess.PIPE, stderr=subprocess.DEVNULL, text=True,
-                                   cwd=ck.work, env=env) for f in ("time", "size", "none", "lag")]
+                                   cwd=ck.work, env=env) for f in ("time", "size", "none", "lag", "second", "stale")]
         cth = threading.Thread(target=cluster, args=(ck,))
         cth.start()
         rc, out = ck.run([binp, "cases", str(n)], timeout=3000)
@@ -245,7 +284,11 @@ def main(ck):
     ck.log("model evaluation done")
     # ---- verdicts
     kinds = {}
-    variants = {"replay": set(), "ack": set(), "ackerr": set(), "group": set()}
+    variants = {"replay": set(), "ack": set(), "ackerr": set(), "group": set(), "trunc": set(), "groupT": set()}
+
+    def vkey(c):
+        return "groupT" if c["kind"] == "group" and c["forced"] in ("second", "stale") else c["kind"]
+
     mism = []
     for i, (c, code) in enumerate(zip(cases, codes)):
         kinds[c["kind"]] = kinds.get(c["kind"], 0) + 1
@@ -253,8 +296,8 @@ def main(ck):
             continue
         if code == 3:
             mism.append(i)
-        elif code in (1, 2) and c["kind"] in variants:
-            variants[c["kind"]].add(code)
+        elif code in (1, 2) and vkey(c) in variants:
+            variants[vkey(c)].add(code)
     for k, v in variants.items():
         if v == {1, 2}:
             ck.broken.append("correspondence C05/%s: implementation matches today's variant on some cases and the repaired one on others" % k)
@@ -279,13 +322,22 @@ def main(ck):
                 fid = F_ACKERR
             elif c["kind"] == "group" and forced_signature(c):
                 fid = F_FORCED
+            elif c["kind"] in ("group", "trunc") and stale_signature(c):
+                fid = F_STALE
             oracle_fail.append((i, what, fid))
     reported = 0
     for i, what, fid in oracle_fail:
         if fid and open_finding(ck, fid):
-            ck.known_finding(fid, what if fid not in (F_TRUNC, F_FORCED) else "a member that was down while the tolerate-time/size branch "
-                             "truncated the leader's log rejoins through a raft snapshot without shard data and lacks acknowledged points" if fid == F_FORCED else "restart replays nothing after a ClearEntryLog beyond the member's own "
-                             "snapshot index; committed entries not yet applied are lost on that replica")
+            fixed_text = {
+                F_FORCED: "a member that was down while the tolerate-time/size branch truncated the leader's log rejoins through a "
+                          "raft snapshot without shard data and lacks acknowledged points",
+                F_TRUNC: "restart replays nothing after a ClearEntryLog beyond the member's own snapshot index; committed entries "
+                         "not yet applied are lost on that replica",
+                F_STALE: "the tolerance timer of the truncation decision keeps running while the node is not the leader: a node that "
+                         "regains the leadership during a later, short outage forces the truncation at once although the group was "
+                         "healthy in between (real group: the rejoined member then lacks acknowledged points)",
+            }
+            ck.known_finding(fid, fixed_text.get(fid, what))
         elif reported < 3:
             reported += 1
             ck.violation({"kind": "direct-oracle", "what": what, "case_index": i, "case": cases[i], "matched_signature": fid,
